@@ -67,10 +67,30 @@ impl Ctx {
     pub fn tick(&self, what: &str) {
         let mut w = self.watchdog.lock().unwrap();
         *w = (std::time::Instant::now(), what.to_string());
+        CASE_CPU0.store(cpu_ticks_all(), std::sync::atomic::Ordering::Relaxed);
     }
     pub fn too_many(&self) -> bool {
         self.report.findings.iter().filter(|f| f.kind != "known").count() >= self.max_findings
     }
+}
+
+/// CPU time (clock ticks, 100 per second) this process and the model driver have used when the current case began
+static CASE_CPU0: std::sync::atomic::AtomicU64 = std::sync::atomic::AtomicU64::new(0);
+static MODEL_PID: std::sync::atomic::AtomicU32 = std::sync::atomic::AtomicU32::new(0);
+
+/// utime + stime of a process from /proc (0 if it cannot be read)
+fn cpu_ticks(pid: &str) -> u64 {
+    let Ok(stat) = std::fs::read_to_string(format!("/proc/{pid}/stat")) else { return 0 };
+    // the fields behind the command name, which is in parentheses and may contain blanks
+    let Some(i) = stat.rfind(')') else { return 0 };
+    let f: Vec<&str> = stat[i + 1..].split_whitespace().collect();
+    // state is f[0]; utime and stime are the 14th and 15th fields of the line = f[11], f[12]
+    f.get(11).and_then(|x| x.parse::<u64>().ok()).unwrap_or(0) + f.get(12).and_then(|x| x.parse::<u64>().ok()).unwrap_or(0)
+}
+
+fn cpu_ticks_all() -> u64 {
+    let m = MODEL_PID.load(std::sync::atomic::Ordering::Relaxed);
+    cpu_ticks("self") + if m != 0 { cpu_ticks(&m.to_string()) } else { 0 }
 }
 
 pub fn fnv(s: &str) -> u64 {
@@ -145,6 +165,7 @@ fn main() {
         i += 1;
     }
     let model = model::Model::spawn(&model_path).expect("cannot start the Lean model driver");
+    MODEL_PID.store(model.pid(), std::sync::atomic::Ordering::Relaxed);
     let watchdog = Arc::new(Mutex::new((std::time::Instant::now(), "start".to_string())));
     {
         // a case that does not come back within the limit is reported as such instead of hanging the check
@@ -155,13 +176,16 @@ fn main() {
         std::thread::spawn(move || loop {
             std::thread::sleep(std::time::Duration::from_millis(500));
             let (t, what) = w.lock().unwrap().clone();
-            if t.elapsed().as_secs() > 20 {
+            // A hang is a case that has USED 20 s of processor time (implementation + model) without coming back — or that
+            // sits there for ten minutes without using any.  Wall-clock time alone says nothing on a loaded machine.
+            let used = cpu_ticks_all().saturating_sub(CASE_CPU0.load(std::sync::atomic::Ordering::Relaxed)) / 100;
+            if (t.elapsed().as_secs() > 20 && used >= 20) || t.elapsed().as_secs() > 600 {
                 let _ = std::fs::create_dir_all(&replay_dir);
                 let path = format!("{replay_dir}/{prop}-hang.json");
                 let _ = std::fs::write(
                     &path,
                     format!(
-                        "{{\"property\":{},\"kind\":\"oracle\",\"what\":\"a case did not terminate within 20 s (implementation or model hangs)\",\"case\":{}}}\n",
+                        "{{\"property\":{},\"kind\":\"oracle\",\"what\":\"a case did not come back within 20 s of processor time (implementation or model hangs)\",\"case\":{}}}\n",
                         json_str(&prop),
                         json_str(&what)
                     ),
